@@ -224,15 +224,8 @@ func keyWiseCopy(info *types.Info, rs *ast.RangeStmt) string {
 		}
 		for _, cj := range conjuncts(ifs.Cond) {
 			u, ok := unparen(cj).(*ast.UnaryExpr)
-			if !ok || u.Op != token.NOT {
-				return "guard is not a conjunction of !Has(key) tests"
-			}
-			c, ok := unparen(u.X).(*ast.CallExpr)
-			if !ok || len(c.Args) != 1 || objOf(info, c.Args[0]) != k {
-				return "guard is not a conjunction of !Has(key) tests"
-			}
-			if cal := calleeOf(info, c); cal == nil || cal.Name() != "Has" {
-				return "guard is not a conjunction of !Has(key) tests"
+			if !ok || u.Op != token.NOT || !keyOnlyTest(u.X) {
+				return "guard is not a conjunction of !Has(key) tests (or of a predicate of the key alone)"
 			}
 		}
 		st = ifs.Body.List[0]
